@@ -18,6 +18,12 @@ def showOti (o : Oti) : String := showNats [o.f, o.t, o.z, o.n, o.al]
 
 def handleE2 (w : List String) : Option String :=
   match w with
+  | ["tablen", name] => some <| toString <| match name with
+      | "v0P" => Gen.v0PLen | "v1P" => Gen.v1PLen | "v2P" => Gen.v2PLen | "v3P" => Gen.v3PLen
+      | "t2K" => Gen.t2KLen | "t2J" => Gen.t2JLen | "t2S" => Gen.t2SLen | "t2H" => Gen.t2HLen | "t2W" => Gen.t2WLen
+      | "p1K" => Gen.p1KLen | "p1V" => Gen.p1VLen | "octExpP" => Gen.octExpPLen | "octLogP" => Gen.octLogPLen
+      | "octMulP" => Gen.octMulPLen | "octMulLoP" => Gen.octMulLoPLen | "octMulHiP" => Gen.octMulHiPLen
+      | "degP" => Gen.degPLen | _ => 1
   | ["sys", k] => some <| showOpt (fun (s : SysParams) => showNats [s.kp, s.j, s.s, s.h, s.w, s.l, s.p, s.p1]) (sysParams (nat k))
   | ["rnd", y, i, m] => some <| showOpt toString (rand (nat y) (nat i) (nat m))
   | ["deg", v, w] => some <| showOpt toString (deg (nat v) (nat w))
